@@ -758,7 +758,7 @@ def obligations(tier, seed):
             for hi, base in enumerate(hists):
                 if tier == "quick":
                     # stride over the alphabet, rotated by state index and seed
-                    k = 6
+                    k = 3
                     sel = [alpha[(si * 7 + seed + j * (len(alpha) // k + 1)) % len(alpha)] for j in range(k)]
                 else:
                     sel = alpha
@@ -768,7 +768,7 @@ def obligations(tier, seed):
                     out.append({"family": "hist", "layer": "state", "universe": uni, "weighted": weighted,
                                 "ops": base + [op]})
         # (iii) seeded longer histories
-        n_long = 40 if tier == "quick" else 400
+        n_long = 16 if tier == "quick" else 400
         for _ in range(n_long):
             L = rng.randint(4, 6)
             out.append({"family": "hist", "layer": "seeded", "universe": uni, "weighted": weighted,
@@ -801,8 +801,8 @@ def budget(tier):
 META = {
     "bounds": {
         "quick": "label universe {0,1,2}; 7 node sets (sorted and reversed listings); histories: every single op, "
-                 "every abstract state (node set, hyperedge set) reachable over the universe x 6 ops (stride), "
-                 "40 seeded histories of length 4-6; weighted and unweighted; all weights, metadata values and "
+                 "every abstract state (node set, hyperedge set) reachable over the universe x 3 ops (stride), "
+                 "16 seeded histories of length 4-6; weighted and unweighted; all weights, metadata values and "
                  "the order/size filter value are unbounded symbolic integers",
         "thorough": "universes {0,1,2} and {'a','b','c'}; every abstract state x two histories x the full alphabet; "
                     "400 seeded histories of length 4-6 per configuration",
